@@ -151,7 +151,8 @@ func (t *Tracer) Write(writer *Writer, pck *Packet) {
 		t.writes[writer] = append(t.writes[writer], pck)
 		t.receives[pck.ID()] = append(t.receives[pck.ID()], nil)
 	} else {
-		t.receive(pck, pck)
+		// the packet is its own answer, in a slot of its own: the slots already there are owed to packets derived from it
+		t.receives[pck.ID()] = append(t.receives[pck.ID()], pck)
 		t.resolve(pck)
 	}
 }
